@@ -4,9 +4,16 @@
 // its read-only layers hold), a small domain of constants and a history of operations on these stores,
 // including merges between them in any direction. The history is interpreted against the real stores and
 // against one reference set model per store, keyed by a canonical, structural key (val.V.Key); neither
-// Hash() nor Equals() nor String() of the library take part in the oracle. After every step every live
-// store is read back completely and compared with its model, so a store that changes because another one
-// was modified (shared state after a Merge) is noticed.
+// Hash() nor Equals() nor String() of the library take part in the oracle.
+//
+// WHEN the stores are read back is a dimension of the case (Case.Observe): after every step every live store
+// is read back completely and compared with its model (a store that changes because another one was modified
+// - shared state after a Merge - is noticed at once), or only at the generated "observe" steps, or only at
+// the end of the history. Under the two sparse policies nothing but the generated steps touches the stores,
+// so that state a store caches between two reads (a predicate listing, an index) goes stale unnoticed by
+// the harness and is seen by the next consumer. An observation reads the store directly (full scan,
+// ListPredicates), through factstore.GetAllFacts, or through a Merge into a fresh store that is then
+// compared with the model of the source. The final comparison of every store always runs.
 package c06
 
 import (
@@ -57,12 +64,68 @@ const (
 	kMerged     = "merged"     // MergedStore(Reads..., write = Base)
 	kTeeing     = "teeing"     // TeeingStore(base = Base), output store created by NewTeeingStore
 	kConcurrent = "concurrent" // ConcurrentFactStore(Base)
+	// kTLayer is not a FactStore: it is a layer of temporal facts below a temporal adapter. An adapter
+	// (kTemporal / kTemporalAt) with Base = layer L wraps NewTeeingTemporalStore(build(L)), the combination
+	// interpreter.pushSourceFragment + updateCombinedStore build; build(L) is a TemporalStore holding L.Init
+	// or, if L has a Base itself, NewTeeingTemporalStore(build(L.Base)) whose output layer holds L.Init.
+	// The Init atoms of a layer carry their validity intervals (Atom.Iv).
+	kTLayer = "tlayer"
 )
+
+// Observation policies (Case.Observe).
+const (
+	obsEvery = ""      // after every step every live store is read back (also: old replay files)
+	obsSteps = "steps" // only the generated observe steps read the stores back
+	obsEnd   = "end"   // observe steps are skipped as well: only the final comparison
+)
+
+// Ways an observe step looks at a store (Step.How).
+const (
+	howScan = "scan" // full scan + ListPredicates of the store
+	howAll  = "all"  // the same for every live store
+	howEnum = "enum" // factstore.GetAllFacts(store)
+	howCopy = "copy" // fresh store of kind Step.Into, fresh.Merge(store), the copy is compared with the model
+)
+
+// ivTable lists the validity intervals a temporal layer fact can have, as offsets in hours from the
+// reference instant of the adapter (its At; 0 for the all-facts adapter). The reference instant is never a
+// boundary (interval arithmetic is not C06's business): an interval clearly contains it or clearly does not.
+var ivTable = []struct {
+	lo, hi   int  // hours; ignored when infinite
+	loInf    bool // start = -inf
+	hiInf    bool // end = +inf
+	contains bool // the reference instant lies inside
+}{
+	{loInf: true, hiInf: true, contains: true}, // 0: eternal
+	{lo: -3, hi: 1, contains: true},
+	{lo: -1, hi: 2, contains: true},
+	{loInf: true, hi: 3, contains: true},
+	{lo: -2, hiInf: true, contains: true},
+	{lo: -3, hi: -2},
+	{lo: 1, hi: 3},
+	{lo: 2, hiInf: true},
+	{lo: -1, hi: 1, contains: true},
+}
+
+func interval(ref int64, code int) ast.Interval {
+	iv := ivTable[code]
+	lo, hi := ast.NegativeInfinity(), ast.PositiveInfinity()
+	if !iv.loInf {
+		lo = ast.NewTimestampBound(time.Unix(0, ref+int64(iv.lo)*int64(time.Hour)))
+	}
+	if !iv.hiInf {
+		hi = ast.NewTimestampBound(time.Unix(0, ref+int64(iv.hi)*int64(time.Hour)))
+	}
+	return ast.NewInterval(lo, hi)
+}
 
 // Atom is a ground atom: predicate index into preds, argument indices into Case.Dom.
 type Atom struct {
 	P int   `json:"p"`
 	A []int `json:"a,omitempty"`
+	// Iv: only for Init atoms of a temporal layer (kTLayer): indices into ivTable, the intervals the fact is
+	// stored with (none = eternal). Below an adapter restricted to an instant at least one contains it.
+	Iv []int `json:"iv,omitempty"`
 }
 
 // Store is a store configuration. Init lists the facts added through this store's own Add right after
@@ -83,12 +146,14 @@ type Col struct {
 
 // Step is one operation of the history on store Stores[On]; a merge reads Stores[From] (From != On).
 type Step struct {
-	Op   string `json:"op"` // add remove contains query merge preds count
+	Op   string `json:"op"` // add remove contains query merge preds count observe
 	On   int    `json:"on,omitempty"`
 	From int    `json:"from,omitempty"` // merge
 	Atom *Atom  `json:"atom,omitempty"` // add remove contains
 	Pred int    `json:"pred,omitempty"` // query
 	Cols []Col  `json:"cols,omitempty"` // query
+	How  string `json:"how,omitempty"`  // observe: howScan (also ""), howAll, howEnum, howCopy
+	Into string `json:"into,omitempty"` // observe/copy: kind of the fresh store (a leaf kind; "" = array)
 }
 
 // Case is the replay format. Stores[0] is the primary store, the others are secondary stores: merge
@@ -97,6 +162,8 @@ type Case struct {
 	Dom    []val.V `json:"dom"`
 	Stores []Store `json:"stores"`
 	Steps  []Step  `json:"steps"`
+	// Observe: when the stores are read back and compared with their models (obsEvery, obsSteps, obsEnd).
+	Observe string `json:"observe,omitempty"`
 }
 
 func (c Case) hash() uint64 {
@@ -128,10 +195,15 @@ type model struct {
 	canRemove   bool    // the write path ends in a store with Remove
 	exact       bool    // EstimateFactCount is documented to be exact
 	hashKeyed   bool    // some leaf of the tree keys atoms by Atom.Hash() without comparing them (K08)
+	// tbase: atoms of base that temporal layers below an adapter ON THE WRITE PATH hold. Add of such an atom
+	// reaches the adapter, which stores the eternal interval in the output layer of the TeeingTemporalStore:
+	// a new temporal fact about an atom that is already visible. Whether that is reported as "added" is not
+	// determined by the set view (either answer); the atom stays visible and must be read back ONCE.
+	tbase map[string]bool
 }
 
 func newModel(s Store) *model {
-	return &model{base: map[string]matom{}, w: map[string]matom{}, mo: map[string]matom{},
+	return &model{base: map[string]matom{}, w: map[string]matom{}, mo: map[string]matom{}, tbase: map[string]bool{},
 		canRemove: supportsRemove(s), exact: exact(s), hashKeyed: hashKeyed(s)}
 }
 
@@ -262,6 +334,11 @@ func walkInits(s *Store, writable bool, visit func(node *Store, i int, writable 
 		if s.Base != nil {
 			walkInits(s.Base, writable, visit)
 		}
+	case kTemporal, kTemporalAt, kTLayer:
+		// the temporal layers below an adapter are read-only (the adapter writes to the topmost output layer)
+		if s.Base != nil {
+			walkInits(s.Base, false, visit)
+		}
 	}
 	for i := range s.Init {
 		visit(s, i, writable)
@@ -388,6 +465,9 @@ func exact(s Store) bool {
 		return false
 	case kConcurrent:
 		return s.Base != nil && exact(*s.Base)
+	case kTemporal, kTemporalAt:
+		// over temporal layers the count is the number of (atom, interval) pairs of all layers
+		return s.Base == nil
 	}
 	return true
 }
@@ -433,6 +513,15 @@ func describe(s Store) string {
 			return s.Kind + "(?)"
 		}
 		return s.Kind + "(" + describe(*s.Base) + ")"
+	case kTemporal, kTemporalAt:
+		if s.Base != nil {
+			return s.Kind + "(teeingTemporal(" + describe(*s.Base) + "))"
+		}
+	case kTLayer:
+		if s.Base != nil {
+			return "teeingTemporal(" + describe(*s.Base) + ")"
+		}
+		return "temporalStore"
 	}
 	return s.Kind
 }
@@ -455,10 +544,20 @@ func (e *env) mk(s Store, writable bool, m *model, depth int) factstore.FactStor
 		st = factstore.NewMultiIndexedInMemoryStore()
 	case kArray:
 		st = factstore.NewMultiIndexedArrayInMemoryStore()
-	case kTemporal:
-		st = factstore.NewTemporalFactStoreAdapter(factstore.NewTemporalStore())
-	case kTemporalAt:
-		st = factstore.NewTemporalFactStoreAdapterAt(factstore.NewTemporalStore(), time.Unix(0, s.At))
+	case kTemporal, kTemporalAt:
+		var ts factstore.TemporalFactStore = factstore.NewTemporalStore()
+		if s.Base != nil {
+			// as interpreter.pushSourceFragment: a TeeingTemporalStore over the layers so far, wrapped by the adapter
+			ts = factstore.NewTeeingTemporalStore(e.mkTLayer(*s.Base, s, writable, m, map[string]bool{}, depth+1))
+			e.label("temporal-adapter-over-teeing")
+		}
+		if s.Kind == kTemporal {
+			st = factstore.NewTemporalFactStoreAdapter(ts)
+		} else {
+			st = factstore.NewTemporalFactStoreAdapterAt(ts, time.Unix(0, s.At))
+		}
+	case kTLayer:
+		e.f.Fatalf("harness: a temporal layer can only be the base of a temporal adapter")
 	case kMerged:
 		if s.Base == nil {
 			e.f.Fatalf("harness: merged store without a write store")
@@ -498,6 +597,77 @@ func (e *env) mk(s Store, writable bool, m *model, depth int) factstore.FactStor
 		}
 	}
 	return st
+}
+
+// mkTLayer builds the temporal layer l below the adapter ad (see kTLayer). The facts of the layer are stored
+// with their intervals through the layer's own Add; every one is visible through the adapter (below an
+// adapter restricted to an instant at least one interval contains that instant). Unlike the read layers of
+// the FactStore wrappers, the layers of ONE adapter may hold the same atom (held: what the layers built so
+// far hold) - reporting it once is the adapter's job; an atom some other part of the tree holds is skipped.
+func (e *env) mkTLayer(l Store, ad Store, adWritable bool, m *model, held map[string]bool, depth int) factstore.TemporalFactStore {
+	if depth > 5 {
+		e.f.Fatalf("harness: store configuration nested too deeply")
+	}
+	if l.Kind != kTLayer {
+		e.f.Fatalf("harness: the base of a temporal adapter must be a temporal layer, not %q", l.Kind)
+	}
+	var ts factstore.TemporalFactStore
+	if l.Base != nil {
+		ts = factstore.NewTeeingTemporalStore(e.mkTLayer(*l.Base, ad, adWritable, m, held, depth+1))
+		e.label("temporal-layers:2+")
+	} else {
+		ts = factstore.NewTemporalStore()
+	}
+	ref := int64(0)
+	if ad.Kind == kTemporalAt {
+		ref = ad.At
+	}
+	inLayer := map[string]bool{}
+	for _, a := range l.Init {
+		ma := e.matom(a)
+		if inLayer[ma.key] {
+			continue
+		}
+		inLayer[ma.key] = true
+		if held[ma.key] {
+			e.label("temporal-layers-share-an-atom")
+		} else if !m.setup(ma, false) {
+			continue
+		}
+		held[ma.key] = true
+		if adWritable {
+			m.tbase[ma.key] = true
+		}
+		codes := a.Iv
+		if len(codes) == 0 {
+			codes = []int{0}
+		}
+		seen := map[int]bool{}
+		visible := false
+		for _, code := range codes {
+			if code < 0 || code >= len(ivTable) {
+				e.f.Fatalf("harness: malformed interval code %d", code)
+			}
+			if seen[code] {
+				continue
+			}
+			seen[code] = true
+			visible = visible || ivTable[code].contains
+			var got bool
+			var err error
+			e.guard("TemporalFactStore.Add", func() { got, err = ts.Add(e.build(ma), interval(ref, code)) })
+			if err != nil || !got {
+				e.f.Fatalf("harness: set-up of a temporal layer: Add(%s, interval %d) = %v, %v", e.show(ma), code, got, err)
+			}
+		}
+		if len(seen) > 1 {
+			e.label("temporal-layer-atom-with-several-intervals")
+		}
+		if ad.Kind == kTemporalAt && !visible {
+			e.f.Fatalf("harness: temporal layer fact %s is not valid at the instant of the adapter", e.show(ma))
+		}
+	}
+	return ts
 }
 
 // scan reads every predicate of the universe with an all-variables query and compares the stream with the
@@ -650,13 +820,66 @@ func check(run *stats.Run, f stats.Failer, c Case) verdict {
 		}
 	}
 	e.label(fmt.Sprintf("stores:%d", len(c.Stores)))
+	switch c.Observe {
+	case obsEvery:
+		e.label("observe:after-every-step")
+	case obsSteps:
+		e.label("observe:at-observe-steps-only")
+	case obsEnd:
+		e.label("observe:at-the-end-only")
+	default:
+		f.Fatalf("harness: unknown observation policy %q", c.Observe)
+	}
 	scanAll := func(when func() string) {
 		for i := range stores {
 			i := i
 			e.scan(stores[i], models[i], func() string { return when() + ": " + name(i) })
 		}
 	}
-	scanAll(func() string { return "after set-up" })
+	if c.Observe == obsEvery {
+		scanAll(func() string { return "after set-up" })
+	}
+	// listed(i) is called whenever some consumer lists the predicates of store i (ListPredicates step, Merge
+	// FROM the store, an observation). It classifies what happened to the store since the previous listing;
+	// the interesting class is a set of predicates that changed while its size did not.
+	lastListed := make([]map[int]bool, len(stores))
+	mutSince := make([]int, len(stores)) // effective adds/removes/merges since the store was last read back
+	var fChurn, fTLayerOverlap bool
+	listed := func(i int) {
+		cur := map[int]bool{}
+		for _, a := range models[i].all() {
+			cur[a.p] = true
+		}
+		if prev := lastListed[i]; prev != nil {
+			same := len(prev) == len(cur)
+			for p := range cur {
+				if !prev[p] {
+					same = false
+				}
+			}
+			switch {
+			case same:
+			case len(prev) == len(cur):
+				fChurn = true
+				e.label("listing-after-predicate-churn-same-count")
+			default:
+				e.label("listing-after-predicate-count-change")
+			}
+		}
+		lastListed[i] = cur
+	}
+	readBack := func(i int) {
+		switch n := mutSince[i]; {
+		case n == 0:
+		case n == 1:
+			e.label("read-back-after-mutations:1")
+		case n < 4:
+			e.label("read-back-after-mutations:2-3")
+		default:
+			e.label("read-back-after-mutations:4+")
+		}
+		mutSince[i] = 0
+	}
 
 	removed := map[string]bool{} // store index + atom key: a Remove took the atom out of that store's set
 	var shares []freshShare
@@ -695,10 +918,19 @@ func check(run *stats.Run, f stats.Failer, c Case) verdict {
 			}
 			var got bool
 			e.guard("Add", func() { got = st.Add(e.build(a)) })
-			if want := where == "absent"; got != want {
+			overTemporal := where == "held by a read-only layer" && m.tbase[a.key]
+			if want := where == "absent"; got != want && !overTemporal {
 				run.Failf(f, "%s: Add(%s) returned %v, but the atom is %s; set = %s", when, e.show(a), got, where, e.showAll(m.all()))
 			}
+			if overTemporal {
+				// the adapter stored the eternal interval in the output layer: the atom is now held by two
+				// layers of the TeeingTemporalStore and must still be read back once
+				fTLayerOverlap = true
+				mutSince[on]++
+				e.label("add-over-temporal-layer-atom")
+			}
 			if m.add(a) {
+				mutSince[on]++
 				if removed[strconv.Itoa(on)+a.key] {
 					fReadd = true
 					e.label("re-add-after-remove")
@@ -731,6 +963,7 @@ func check(run *stats.Run, f stats.Failer, c Case) verdict {
 					run.Failf(f, "%s: Remove(%s) returned false, but the write layer holds the atom; set = %s", when, e.show(a), e.showAll(before))
 				}
 				removed[strconv.Itoa(on)+a.key] = true
+				mutSince[on]++
 				e.label("remove-present")
 				mutated(on, a.p)
 			case rmMergedOver:
@@ -873,9 +1106,20 @@ func check(run *stats.Run, f stats.Failer, c Case) verdict {
 				}
 			}
 			e.guard("Merge", func() { st.Merge(stores[from]) })
+			listed(from)
+			for _, a := range src.all() {
+				if m.tbase[a.key] {
+					fTLayerOverlap = true
+					e.label("merge-over-temporal-layer-atom")
+					break
+				}
+			}
 			added, over := m.merge(src)
 			if over {
 				e.label("merge-over-base")
+			}
+			if added > 0 || over {
+				mutSince[on]++
 			}
 			switch {
 			case from == 0:
@@ -896,6 +1140,39 @@ func check(run *stats.Run, f stats.Failer, c Case) verdict {
 			}
 		case "preds":
 			e.checkPreds(st, m, when)
+			listed(on)
+		case "observe":
+			if c.Observe == obsEnd {
+				continue // this policy looks at the stores at the end only
+			}
+			switch s.How {
+			case "", howScan:
+				e.scan(st, m, when.String)
+				e.checkPreds(st, m, when)
+				listed(on)
+				readBack(on)
+				e.label("observe-step:scan")
+			case howAll:
+				scanAll(when.String)
+				for j := range stores {
+					e.checkPreds(stores[j], models[j], lazy(func() string { return when.String() + ": " + name(j) }))
+					listed(j)
+					readBack(j)
+				}
+				e.label("observe-step:all-stores")
+			case howEnum:
+				e.enumerate(st, m, when)
+				listed(on)
+				readBack(on)
+				e.label("observe-step:GetAllFacts")
+			case howCopy:
+				e.copyCompare(st, m, s.Into, when)
+				listed(on)
+				readBack(on)
+				e.label("observe-step:merge-into-fresh-" + copyKind(s.Into))
+			default:
+				f.Fatalf("harness: unknown way of observing %q", s.How)
+			}
 		case "count":
 			var got int
 			e.guard("EstimateFactCount", func() { got = st.EstimateFactCount() })
@@ -908,9 +1185,16 @@ func check(run *stats.Run, f stats.Failer, c Case) verdict {
 		default:
 			f.Fatalf("harness: unknown op %q", s.Op)
 		}
-		// after every step every live store, read completely, is its model
-		scanAll(func() string { return "after " + when.String() })
-		e.checkPreds(st, m, lazy(func() string { return "after " + when.String() }))
+		if c.Observe == obsEvery {
+			// after every step every live store, read completely, is its model
+			scanAll(func() string { return "after " + when.String() })
+			e.checkPreds(st, m, lazy(func() string { return "after " + when.String() }))
+			listed(on)
+			for j := range stores {
+				mutSince[j] = 0
+			}
+		}
+		// (nothing below touches the stores)
 		have := map[int]bool{}
 		for _, a := range m.all() {
 			have[a.p] = true
@@ -927,6 +1211,17 @@ func check(run *stats.Run, f stats.Failer, c Case) verdict {
 		if (have[1] && have[2]) || (have[3] && have[4]) {
 			twoArities = true
 		}
+	}
+	// The final comparison, under every policy: each store is listed, enumerated, scanned and copied.
+	for j := range stores {
+		j := j
+		at := lazy(func() string { return "at the end of the history: " + name(j) })
+		readBack(j)
+		e.checkPreds(stores[j], models[j], at)
+		listed(j)
+		e.enumerate(stores[j], models[j], at)
+		e.scan(stores[j], models[j], at.String)
+		e.copyCompare(stores[j], models[j], kArray, at)
 	}
 	switch n := len(c.Steps); {
 	case n < 10:
@@ -960,13 +1255,20 @@ func check(run *stats.Run, f stats.Failer, c Case) verdict {
 	if fShareMut {
 		e.label("NT:mutation-after-merge-into-absent-pred")
 	}
+	if fChurn {
+		e.label("NT:listing-after-predicate-churn-same-count")
+	}
+	if fTLayerOverlap {
+		e.label("NT:atom-in-two-temporal-layers-through-adapter")
+	}
 	v := verdict{}
 	// Non-trivial: at least three of: a non-first-column query with a non-empty candidate set; a merge across
 	// kinds that brought new facts; a remove followed by a successful re-add; a query with a constant whose
 	// hash twin is stored in that column; a change of one of the two stores of a merge that introduced a
-	// predicate to the destination.
+	// predicate to the destination; two listings of a store between which its set of predicates changed but
+	// not their number; an Add or Merge through a temporal adapter of an atom a lower temporal layer holds.
 	feats := 0
-	for _, b := range []bool{fNonFirst, fMerge, fReadd, fTwin, fShareMut} {
+	for _, b := range []bool{fNonFirst, fMerge, fReadd, fTwin, fShareMut, fChurn, fTLayerOverlap} {
 		if b {
 			feats++
 		}
@@ -1022,6 +1324,97 @@ func (e *env) checkPreds(st factstore.ReadOnlyFactStore, m *model, when fmt.Stri
 		when, need, len(listed), e.showAll(m.all()))
 }
 
+// copyKind normalises the kind of the fresh store of a copy observation.
+func copyKind(k string) string {
+	if k == "" {
+		return kArray
+	}
+	return k
+}
+
+// modelOf returns a model that holds the visible atoms of m in its write layer: what a fresh store must
+// hold after fresh.Merge(store of m).
+func modelOf(m *model, kind string) *model {
+	c := newModel(Store{Kind: kind})
+	for _, a := range m.all() {
+		c.w[a.key] = a
+	}
+	return c
+}
+
+// enumerate reads the store through factstore.GetAllFacts (ListPredicates, then one all-variables query per
+// listed predicate): every visible atom exactly once and nothing else.
+func (e *env) enumerate(st factstore.FactStore, m *model, when fmt.Stringer) {
+	got := map[string]int{}
+	var err error
+	e.guard("GetAllFacts", func() {
+		err = factstore.GetAllFacts(st, func(a ast.Atom) error {
+			got[val.AtomKey(a)]++
+			return nil
+		})
+	})
+	if err != nil {
+		e.run.Failf(e.f, "%s: GetAllFacts returned an error: %v", when, err)
+	}
+	e.sameSet(got, m, func() string { return when.String() + ": GetAllFacts(store)" })
+}
+
+// sameSet: got (atom key -> number of times yielded) is the visible set of m, each atom once.
+func (e *env) sameSet(got map[string]int, m *model, what func() string) {
+	var missing, extra, twice []string
+	for _, a := range m.all() {
+		if got[a.key] == 0 {
+			missing = append(missing, e.show(a))
+		}
+	}
+	for k, n := range got {
+		if !m.visible(k) {
+			extra = append(extra, k)
+		}
+		if n > 1 {
+			twice = append(twice, fmt.Sprintf("%s x%d", k, n))
+		}
+	}
+	if len(missing)+len(extra)+len(twice) > 0 {
+		sort.Strings(extra)
+		sort.Strings(twice)
+		e.run.Failf(e.f, "%s: the set holds %s; missing from the answer: %v; not in the set: %v; yielded more than once: %v",
+			what(), e.showAll(m.all()), missing, extra, twice)
+	}
+}
+
+// copyCompare observes the store through another consumer: a fresh store of the given leaf kind merges
+// it, and the copy must be the set - membership by full scan, predicate list and (the copy is an exact
+// store) fact count. A source that misreports its predicates or facts to Merge shows up as a wrong copy.
+func (e *env) copyCompare(st factstore.FactStore, m *model, kind string, when fmt.Stringer) {
+	kind = copyKind(kind)
+	var fresh factstore.FactStore
+	switch kind {
+	case kSimple:
+		fresh = factstore.NewSimpleInMemoryStore()
+	case kIndexed:
+		fresh = factstore.NewIndexedInMemoryStore()
+	case kMulti:
+		fresh = factstore.NewMultiIndexedInMemoryStore()
+	case kArray:
+		fresh = factstore.NewMultiIndexedArrayInMemoryStore()
+	case kTemporal:
+		fresh = factstore.NewTemporalFactStoreAdapter(factstore.NewTemporalStore())
+	default:
+		e.f.Fatalf("harness: a copy cannot be made into a store of kind %q", kind)
+	}
+	e.guard("Merge", func() { fresh.Merge(st) })
+	cm := modelOf(m, kind)
+	what := lazy(func() string { return when.String() + ": fresh " + kind + " store after Merge(store)" })
+	e.scan(fresh, cm, what.String)
+	e.checkPreds(fresh, cm, what)
+	var n int
+	e.guard("EstimateFactCount", func() { n = fresh.EstimateFactCount() })
+	if n != cm.size() {
+		e.run.Failf(e.f, "%s: EstimateFactCount() = %d, the set has %d atoms: %s", what, n, cm.size(), e.showAll(cm.all()))
+	}
+}
+
 // panicFailer serves excludeK08, which only runs the models.
 type panicFailer struct{}
 
@@ -1057,7 +1450,7 @@ func excludeK08(c Case) (Case, int) {
 		return false
 	}
 	dropped := 0
-	out := Case{Dom: c.Dom}
+	out := Case{Dom: c.Dom, Observe: c.Observe}
 	models := make([]*model, len(c.Stores))
 	for i := range c.Stores {
 		s := cloneStore(c.Stores[i])
